@@ -99,6 +99,7 @@ func report(w *World, cfg runConfig, units []*UnitResult, obls []*Obligation, bo
 	solverSecs := 0.0
 	violations := 0
 	var knownLines []string
+	var coverUndecided []string
 	var samples []map[string]interface{}
 	var slow []string
 	for _, ob := range obls {
@@ -118,7 +119,13 @@ func report(w *World, cfg runConfig, units []*UnitResult, obls []*Obligation, bo
 				coversOK++
 				continue
 			}
-			// a cover that is not satisfiable means a vacuous contract: a run error, not a violation
+			if ob.Verdict != "unsat" {
+				// undecided reachability query: not evidence of vacuity, reported only
+				fmt.Printf("note: cover %s undecided (%s): %s\n", ob.Name, ob.Verdict, ob.Desc)
+				coverUndecided = append(coverUndecided, ob.Name)
+				continue
+			}
+			// a cover that is unsatisfiable means a vacuous contract: a run error, not a violation
 			fmt.Printf("CHECK-ERROR vacuity: %s is %s (%s) [%s]\n", ob.Name, ob.Verdict, ob.Desc, ob.File)
 			checkErrors = append(checkErrors, "vacuity: "+ob.Name)
 			if exit == 0 {
@@ -250,7 +257,7 @@ func report(w *World, cfg runConfig, units []*UnitResult, obls []*Obligation, bo
 		"checker_cmd":              "bin/check " + cfg.prop + " --tier " + cfg.tier + "  (govc: go/ssa -> weakest-precondition style VCs -> z3-new | z3 | cvc5)",
 		"trusted_base":             []string{"x/tools go/ssa v0.29.0", "govc VC generator (/verif/govc)", "z3 4.8.12", "z3 5.1.0", "cvc5 1.0.3", "/verif/spec/*.vspec axioms"},
 		"functions_under_contract": fnames,
-		"covers":                   map[string]int{"total": covers, "satisfiable": coversOK},
+		"covers":                   map[string]interface{}{"total": covers, "satisfiable": coversOK, "undecided": coverUndecided},
 		"by_backend":               bk,
 		"solver_seconds":           round3(solverSecs),
 		"samples":                  samples,
